@@ -292,6 +292,19 @@ FIXED_CASES = [
     ("{{a}}.get({{k}}, None)", "{{a}}.get({{k}})", "y = d.get(k, None).x[0]\n", "y = d.get(k).x[0]\n"),
     ("len({{a}}) == 0", "not {{a}}", "y = len(v) == 0 and w\n", "y = not v and w\n"),
     ("len({{a}}) == 0", "not {{a}}", "y = -(len(v) == 0)\n", "y = -(not v)\n"),
+    # a binding that contains the text of another slot is not substituted into; absent optional children are no match (source unchanged)
+    ("f({{a}}, {{b}})", "g({{a}}, {{b}})", "y = f('{{b}}', 1)\n", "y = g('{{b}}', 1)\n"),
+    ("f({{a}})", "g({{a}})", "y = f('{{name}}')\n", "y = g('{{name}}')\n"),
+    ("return {{x}}", "return ({{x}})", "def f():\n    return\n", "def f():\n    return\n"),
+    ("{{s}}[{{a}}:{{b}}]", "{{s}}[{{b}}:{{a}}]", "z = y[1:]\n", "z = y[1:]\n"),
+    # a replacement of several statements stays in the block of the statement it replaces, at any depth, first or not in its block
+    ("{{a}} = compute()", "tmp = compute()\n{{a}} = tmp", "def f():\n    if c:\n        x = compute()\n    return x\n", "def f():\n    if c:\n        tmp = compute()\n        x = tmp\n    return x\n"),
+    ("{{a}} = compute()", "tmp = compute()\n{{a}} = tmp", "def f():\n    q = 0\n    for i in r:\n        if c:\n            q = 1\n            x = compute()\n    return x\n",
+     "def f():\n    q = 0\n    for i in r:\n        if c:\n            q = 1\n            tmp = compute()\n            x = tmp\n    return x\n"),
+    ("try:\n    {{s}}\nexcept {{e}}:\n    raise {{x}}", "try:\n    {{s}}\nexcept {{e}} as error:\n    raise {{x}} from error",
+     "def f(a):\n    a = 1\n    try:\n        b = g()\n    except Exception:\n        raise ValueError('x')\n    return b\n",
+     "def f(a):\n    a = 1\n    try:\n        b = g()\n    except Exception as error:\n        raise ValueError('x') from error\n    return b\n"),
+    ("def {{f}}[T]():\n    return 1", "def {{f}}[T]():\n    return 2", "def g[T]():\n    return 1\n", "def g[T]():\n    return 2\n"),
     # bound string literals keep their value whatever prefix and escapes they are written with
     ("foo({{a}}, {{b}})", "bar({{b}}, {{a}})", 'y = foo(r"\\bfoo\\b", s)\n', 'y = bar(s, r"\\bfoo\\b")\n'),
     ("foo({{a}}, {{b}})", "bar({{b}}, {{a}})", 'y = foo("a\\0b\\x41", b"\\x00z")\n', 'y = bar(b"\\x00z", "a\\0b\\x41")\n'),
